@@ -283,13 +283,17 @@ fn c11_families(thorough: bool) -> Vec<Family> {
         });
     }
     // nesting-depth ladder (a listed family, not a claim about all depths)
+    // 2^k levels; operator chains are parsed in quadratic time, so their ladder ends two rungs earlier
     let maxk = if thorough { 16 } else { 12 };
     v.push(Family {
         name: "depth-ladder",
         count: (maxk as u64 + 1) * 6,
         gen: Box::new(move |i| {
             let k = (i / 6) as u32;
-            let n = 1usize << k;
+            let mut n = 1usize << k;
+            if i % 6 == 2 && k + 2 > maxk as u32 {
+                n = 1usize << (maxk as u32 - 2);
+            }
             match i % 6 {
                 0 => format!("{}1{}", "(".repeat(n), ")".repeat(n)),
                 1 => format!("{}1{}", "[".repeat(n), "]".repeat(n)),
@@ -598,8 +602,23 @@ fn worker(ctx: &Ctx) {
         // the previous process died while evaluating exactly this input
         let src = case_by_index(ctx, thorough, idx).map(|c| c.src).unwrap_or_default();
         let sig = if src.len() > 200 {
-            let c: String = src.chars().filter(|c| !c.is_alphanumeric() && *c != ' ').take(1).collect();
-            format!("process-abort:deep-nesting:{}:{}", c, src.len())
+            // which recursive construct is nested (the depth is reported in the detail text)
+            let kind = if src.starts_with('(') {
+                "parentheses"
+            } else if src.starts_with("[") {
+                "array-literal"
+            } else if src.starts_with("1 +") {
+                "operator-chain"
+            } else if src.starts_with('!') {
+                "not-chain"
+            } else if src.starts_with("arr[") {
+                "index-chain"
+            } else if src.starts_with('{') {
+                "map-literal"
+            } else {
+                "other"
+            };
+            format!("process-abort:deep-nesting:{}", kind)
         } else {
             format!("process-abort:{}", src)
         };
@@ -673,7 +692,9 @@ fn worker(ctx: &Ctx) {
             st.careful_until = None;
         }
         tx.send((from, to, careful)).unwrap();
-        match rrx.recv_timeout(Duration::from_secs(if careful { 3 } else { 6 })) {
+        // the nesting ladder and boundary families (last ones) contain very long inputs: generous watchdog there
+        let long_inputs = to + 400 > total;
+        match rrx.recv_timeout(Duration::from_secs(if long_inputs { 180 } else if careful { 3 } else { 6 })) {
             Ok(res) => {
                 for (i, viol, evals, classes, src) in res {
                     st.out.add("evaluations", evals);
